@@ -103,6 +103,8 @@ func genRt(r *rand.Rand, n int, tier string, out *bufio.Writer) {
 	}
 }
 
+func readBlockAgain(r gowarc.WarcRecord) (string, error) { return readBlock(r) }
+
 func marshalRecord(rec gowarc.WarcRecord) ([]byte, error) {
 	var b bytes.Buffer
 	_, _, err := gowarc.NewMarshaler().Marshal(&b, rec, 0)
@@ -186,6 +188,9 @@ func runRt(toks []string) (string, string) {
 				verdict = "FAIL:policy-incoherent:accepted by the strict builder but rejected under a more lenient policy: " + errb.Error()
 				return
 			}
+			if len(toks)%2 == 0 {
+				continue // all records are built first and serialized afterwards, while all are alive
+			}
 			wire, errm := marshalRecord(rec)
 			if errm != nil {
 				verdict = "FAIL:roundtrip-lossy:marshal failed: " + errm.Error()
@@ -201,6 +206,21 @@ func runRt(toks []string) (string, string) {
 		if len(recs) == 0 {
 			return
 		}
+		if len(toks)%2 == 0 {
+			for _, rec := range recs {
+				wire, errm := marshalRecord(rec)
+				if errm != nil {
+					verdict = "FAIL:roundtrip-lossy:marshal failed: " + errm.Error()
+					return
+				}
+				wires = append(wires, wire)
+				if gz {
+					stream = append(stream, gzipMember(wire)...)
+				} else {
+					stream = append(stream, wire...)
+				}
+			}
+		}
 		wf, errn := gowarc.NewWarcFileReaderFromStream(bytes.NewReader(stream), 0, ord.options(dir, nil)...)
 		if errn != nil {
 			verdict = "FAIL:roundtrip-lossy:cannot open the stream"
@@ -208,6 +228,8 @@ func runRt(toks []string) (string, string) {
 		}
 		defer wf.Close()
 		var all []string
+		var kept []gowarc.WarcRecord
+		var keptBlocks []string
 		for i, rec := range recs {
 			back, _, v, erru := wf.Next()
 			if erru != nil {
@@ -229,7 +251,7 @@ func runRt(toks []string) (string, string) {
 				verdict = "FAIL:roundtrip-lossy:version differs"
 			case back.Type() != rec.Type():
 				verdict = fmt.Sprintf("FAIL:roundtrip-lossy:record type %v became %v", rec.Type(), back.Type())
-			case back.WarcHeader().String() != rec.WarcHeader().String():
+			case back.WarcHeader().String() != rec.WarcHeader().String() || fieldPairs(back.WarcHeader()) != fieldPairs(rec.WarcHeader()):
 				verdict = "FAIL:" + known("roundtrip-lossy") + ":header fields differ"
 			case got != orig:
 				verdict = "FAIL:roundtrip-lossy:block bytes differ"
@@ -239,10 +261,25 @@ func runRt(toks []string) (string, string) {
 					verdict = "FAIL:" + known("remarshal-differs") + ":serializing the parsed record does not reproduce the bytes"
 				}
 			}
-			back.Close()
+			if len(toks)%3 == 0 {
+				kept = append(kept, back) // parsed records held across later Next calls
+				keptBlocks = append(keptBlocks, got)
+			} else {
+				back.Close()
+			}
 			if verdict != "OK" {
 				return
 			}
+		}
+		for i, b := range kept {
+			// what was read from a record does not change when later records are parsed
+			if again, err := readBlockAgain(b); err == nil && again != keptBlocks[i] {
+				verdict = "FAIL:roundtrip-lossy:the block of an earlier parsed record changed when later records were parsed"
+			}
+			b.Close()
+		}
+		if verdict != "OK" {
+			return
 		}
 		if _, _, _, erre := wf.Next(); erre == nil || erre.Error() != "EOF" {
 			verdict = "FAIL:roundtrip-lossy:no clean end of file after the last record"
